@@ -334,4 +334,105 @@ def guardStateAfterQuery (ops : List (ChainOp × Form)) (pk : Option Atom) (soft
   | some f => softDeleteModify unscoped f st0
   | none => st0
 
+/-! ### the statement shared by the finishers of ONE handle (statement reuse)
+
+  A handle with `clone = 0` (a chain kept in a variable, or the `*DB` a finisher returned) hands its very `Statement`
+  to every finisher (gorm.go `getInstance`).  What one finisher leaves in `Statement.Clauses` is what the next one
+  starts from.  `stmtStep` transcribes, per finisher, the entries touched:
+  finisher_api.go `Count` (SELECT added and removed again, FROM stays), `Find/Scan/Rows/Pluck` (SELECT, FROM),
+  `First/Last` (+ ORDER BY, LIMIT), `Take` (+ LIMIT) — all through callbacks/query.go `BuildQuerySQL`, which first
+  runs the schema's QueryClauses (`softDeleteModify`); `Update` (callbacks/update.go: UpdateClauses = the modifier,
+  then the model value's key as one Where expression per key column, entry UPDATE; SET is removed again),
+  `Delete` (callbacks/delete.go: hard = key conditions, entries DELETE and FROM; soft_delete.go
+  `SoftDeleteDeleteClause.ModifyStatement`: SET, key conditions, the modifier, entry UPDATE). -/
+
+inductive FinKind | count | find | first | take | last | pluck | scan | rows | update | delete
+deriving DecidableEq, Repr
+
+def FinKind.isWrite : FinKind → Bool
+  | .update | .delete => true
+  | _ => false
+
+/-- one call on the handle -/
+inductive StmtOp where
+  | cond (op : ChainOp) (f : Form)            -- Where / Not / Or
+  | clauseWhere (es : List Ex)                -- Clauses(clause.Where{Exprs: es}) — `es` may be empty
+  | unscoped                                  -- Unscoped()
+  | fin (k : FinKind) (valueKey : List Atom) (same : Bool)
+      -- `valueKey`: key conditions of the value handed to the finisher (`Delete(&keyed)`, `Updates(&keyed)`);
+      -- `same`: that value IS the statement's Model (`Dest == Model`)
+
+structure StmtCfg where
+  soft : Option Atom          -- the soft-delete filter of the model (none = plain model)
+  modelKey : List Atom        -- key conditions of the value given to `Model(..)`
+  allowGlobal : Bool
+
+structure StmtState where
+  w : WhereState
+  unscoped : Bool
+  keys : List String          -- the other entries of `Statement.Clauses`
+deriving Repr
+
+def StmtState.fresh : StmtState := { w := { exprs := none, softEnabled := false }, unscoped := false, keys := [] }
+
+/-- `Statement.AddClause(clause.Where{Exprs: new})` → `Where.MergeClause`: the entry exists afterwards, even when empty -/
+def addWhere (s : WhereState) (new : List Ex) : WhereState :=
+  { s with exprs := some (s.exprs.getD [] ++ new) }
+
+def addKey (k : String) (ks : List String) : List String := if ks.contains k then ks else ks ++ [k]
+
+def addKeys (new : List String) (ks : List String) : List String := new.foldl (fun acc k => addKey k acc) ks
+
+/-- entries a finisher leaves behind besides WHERE and the marker -/
+def FinKind.leaves (soft unscoped : Bool) : FinKind → List String
+  | .count => ["FROM"]
+  | .find | .scan | .rows | .pluck => ["SELECT", "FROM"]
+  | .first | .last => ["LIMIT", "ORDER BY", "SELECT", "FROM"]
+  | .take => ["LIMIT", "SELECT", "FROM"]
+  | .update => ["UPDATE"]
+  | .delete => if soft && !unscoped then ["SET", "UPDATE"] else ["DELETE", "FROM"]
+
+/-- key conditions a write finisher adds: callbacks/update.go `ConvertToAssignments` (the Model value's key unless the
+    updating value is the Model itself, then that value's key), callbacks/delete.go `Delete` / soft_delete.go (the
+    deleted value's key, and the Model value's key when `Dest != Model`) -/
+def writeKeys (cfg : StmtCfg) (k : FinKind) (valueKey : List Atom) (same : Bool) : List Atom :=
+  match k with
+  | .update => if same then valueKey else cfg.modelKey
+  | .delete => valueKey ++ (if same then [] else cfg.modelKey)
+  | _ => []
+
+def modifyBy (cfg : StmtCfg) (unscoped : Bool) (w : WhereState) : WhereState :=
+  match cfg.soft with
+  | some f => softDeleteModify unscoped f w
+  | none => w
+
+/-- the WHERE state a finisher executes with (and leaves behind) -/
+def finWhere (cfg : StmtCfg) (s : StmtState) (k : FinKind) (valueKey : List Atom) (same : Bool) : WhereState :=
+  let ks := (writeKeys cfg k valueKey same).map Ex.atom
+  match k with
+  | .update =>
+    let w1 := modifyBy cfg s.unscoped s.w
+    -- `if _, ok := db.Statement.Clauses["SET"]; !ok { ConvertToAssignments … }`: a SET entry left by an earlier soft
+    -- delete on this statement is reused, the key conditions are then not added
+    if ks.isEmpty || s.keys.contains "SET" then w1 else addWhere w1 ks
+  | .delete =>
+    let w1 := if ks.isEmpty then s.w else addWhere s.w ks
+    modifyBy cfg s.unscoped w1
+  | _ => modifyBy cfg s.unscoped s.w
+
+def stmtStep (cfg : StmtCfg) (s : StmtState) : StmtOp → StmtState
+  | .cond op f =>
+    let new := chainStep [] op f
+    if new.isEmpty then s else { s with w := addWhere s.w new }
+  | .clauseWhere es => { s with w := addWhere s.w es }
+  | .unscoped => { s with unscoped := true }
+  | .fin k vk same =>
+    { s with w := finWhere cfg s k vk same, keys := addKeys (k.leaves cfg.soft.isSome s.unscoped) s.keys }
+
+def stmtRun (cfg : StmtCfg) (s : StmtState) (ops : List StmtOp) : StmtState := ops.foldl (stmtStep cfg) s
+
+/-- does the guard reject write finisher `k` issued in state `s`? -/
+def finRejected (cfg : StmtCfg) (s : StmtState) (k : FinKind) (valueKey : List Atom) (same : Bool) : Bool :=
+  k.isWrite && missingWhere cfg.allowGlobal (finWhere cfg s k valueKey same)
+
 end Gorm
